@@ -148,6 +148,16 @@ def gen_history(r, quick=True):
             if cfg["kind"] != "pool" and label in ("garbage-frame", "bad-zlib"):
                 g.alive[c]["served"] = False
             probe()
+        elif x < 0.32 and cfg["kind"] == "threaded" and cfg["cls"] and not g.closed and len(g.ever) < 13:
+            # two clients connect at the same time
+            a, b = g.next_cid, g.next_cid + 1
+            g.next_cid += 2
+            g.items.append(["twin", a, b])
+            for c in (a, b):
+                g.ever.append(c)
+                g.alive[c] = {"ckind": "raw", "auth": S.AUTH_OK, "served": True, "blocked": False}
+                g.tables[c] = []
+            g.good_req(b)
         elif x < 0.34 and g.busy is None and not g.closed and len(g.ever) < 14 and cfg["kind"] != "oneshot":
             # the process runs out of descriptors while a client connects: accept() fails with EMFILE
             c = g.next_cid
@@ -202,6 +212,21 @@ def witnesses():
                             [["connect", 1, "raw", 0], ["connect", 2, "raw", 0], ["req", 1, S.QROOT, None, 0], ["req", 1, S.QMAKE, [o, 0], 0],
                              ["req", 2, S.QSTR, [o, 1], 0], ["req", 2, S.QROOT, None, 0], ["req", 2, S.QSTR, [o, 1], 0], ["req", 2, S.QDEL, [o, 1], 0],
                              ["req", 2, S.QMAKE, [o2, 0], 0], ["req", 1, S.QSTR, [o2, 2 if not cls else 1], 0], ["req", 1, S.QBUMP, [o, 0], 0], ["req", 2, S.QBUMP, [o2, 0], 0]]))
+    # two clients connecting at the same time: each connection must be created with its own endpoints / credentials
+    for auth in (False, True):
+        for transport in ("tcp", "unix"):
+            base = {"kind": "threaded", "transport": transport, "auth": auth, "cls": True, "nw": 2, "batch": 10}
+            out.append((dict(base), [["twin", 1, 2], ["req", 1, S.QROOT, None, 0], ["req", 2, S.QROOT, None, 0], ["req", 1, S.QBUMP, [1, 0], 0]]))
+            out.append((dict(base), [["connect", 1, "raw", 0], ["req", 1, S.QROOT, None, 0], ["twin", 2, 3], ["req", 3, S.QROOT, None, 0], ["leave", 2, "fin"],
+                                     ["req", 1, S.QBUMP, [1, 0], 0]]))
+    # several clients that fail authentication come and go: nothing of them may stay behind, a good client is served afterwards
+    for kind in ("threaded", "pool"):
+        for transport in ("tcp", "unix"):
+            its = []
+            for c in range(1, 6):
+                its += [["connect", c, "raw", S.AUTH_FAIL], ["leave", c, "fin" if c % 2 else "rst"]]
+            its += [["connect", 6, "raw", 0], ["req", 6, S.QROOT, None, 0], ["req", 6, S.QBUMP, [6, 0], 0], ["leave", 6, "close"]]
+            out.append(({"kind": kind, "transport": transport, "auth": True, "cls": True, "nw": 2, "batch": 10}, its))
     # clients that make the server wait for them (a nested request never answered): nbThreads of them, then a good client
     for kind in ("threaded", "pool"):
         base = {"kind": kind, "transport": "tcp", "auth": False, "cls": True, "nw": 2, "batch": 10}
@@ -253,7 +278,7 @@ def nontrivial(cfg, items):
     """at least one hostile event and one well-behaved request (or call) after it"""
     hostile_at = None
     for j, it in enumerate(items):
-        if it[0] in ("send", "hostile", "kill", "stall", "emfile") or (it[0] == "connect" and cfg["auth"] and it[3] != S.AUTH_OK):
+        if it[0] in ("send", "hostile", "kill", "stall", "emfile", "twin") or (it[0] == "connect" and cfg["auth"] and it[3] != S.AUTH_OK):
             hostile_at = j if hostile_at is None else hostile_at
         elif hostile_at is not None and it[0] in ("req", "call"):
             if cfg["kind"] == "forking" or S.well_behaved(cfg, items, j):
